@@ -41,6 +41,8 @@ func New(prefix string) *Query {
 // Where adds filtering.
 func (q *Query) Where(condition Condition) *Query {
 	q.where = condition
+	// The new condition has not been checked yet.
+	q.checked = false
 	return q
 }
 
